@@ -39,6 +39,40 @@ def dup_check_calls(f):
     return out
 
 
+def file_read_once(prog, cg, D):
+    """the once-only discipline of Parser.parse_file, reported under rule D (shared by C12 and C15)"""
+    pf = prog.func(PAR, "Parser.parse_file")
+    pg = C.build(pf.node)
+    pgs = flow.guard_states(pg)
+    ptn = [n for n in pg.nodes if any(is_method_call(c, "parse_text") and path_of(recv_of(c)) == "self" for c in node_calls(n))]
+    apn = [n for n in pg.nodes for c in node_calls(n) if is_method_call(c, "append") and path_of(recv_of(c)) == "self.included_files"]
+    if len(ptn) != 1:
+        raise AnalysisError("anchor vanished: parse_text call in parse_file")
+    if len(apn) != 1:
+        D.bad(fkey(pf, "records-file"), where(pf), f"parse_file records the parsed file in included_files {len(apn)} times (expected once): repeated imports are parsed again")
+        apn = []
+    if apn:
+        apc = [c for c in node_calls(apn[0]) if is_method_call(c, "append")][0]
+        pv = path_of(apc.args[0])
+        pdef = dataflow.definitions(pf.node, pv) if pv else []
+        D.decide(len(pdef) == 1 and norm(pdef[0][1]).endswith(".resolve()"), fkey(pf, "resolved-path"), where(pf), f"`{pv}` is a resolved path", f"recorded path `{pv}` is not the resolved path")
+        tests = [n for n in pg.nodes if n.kind == "test" and "self.included_files" in flow.access_paths(n.ast) and pv in flow.access_paths(n.ast)]
+        D.decide(len(tests) == 1, fkey(pf, "membership-test-same-variable"), where(pf), f"membership test compares `{pv}` with included_files", "no membership test of the recorded path variable against included_files")
+        if tests:
+            t = tests[0]
+            # (the fact is established at the recording point; the append itself invalidates it afterwards)
+            bad = guards.any_path_implies(pgs.at(apn[0]), guards.parse(f"not ({norm(t.ast)})"))
+            D.decide(not bad, fkey(pf, "parse-only-if-new"), where(pf), "the file is recorded (and then parsed) only when it was not seen", "a file can be recorded/parsed although already included")
+            # skip path registers nothing: from the true edge no handler / parse_text / append is reachable
+            skip = flow.reach(pg, [e.dst for e in pg.succ[t.id] if e.kind == "true"])
+            D.decide(ptn[0].id not in skip and apn[0].id not in skip, fkey(pf, "skip-path-registers-nothing"), where(pf), "the skip path neither parses nor records", "the skip path still parses or records the file")
+        D.decide(not flow.must_precede(pg, apn, ptn), fkey(pf, "record-before-parse"), where(pf), "path recorded before parsing (diamond/cyclic imports terminate)", "file is recorded only after parsing its imports")
+    for cf, cc in cg.call_sites_of(prog.func(PAR, "Parser.parse_text").key):
+        D.decide(cf.key == pf.key, fkey(cf, cc), where(cf, cc), "parse_text called from parse_file", f"parse_text called from {cf.qual} (bypasses the once-only test)")
+    hi = prog.func(PAR, "Parser.handle_import")
+    D.decide(any(is_method_call(c, "parse_file") for c in calls_in(hi.node)), fkey(hi, "imports-through-parse_file"), where(hi), "imports go through parse_file", "handle_import does not go through parse_file")
+
+
 def run(prog: Program, chk: Check):
     cg = callgraph.get(prog)
     chk.explanation = (
@@ -224,36 +258,7 @@ def run(prog: Program, chk: Check):
     # ---- D a file is read once ---------------------------------------------------------------------------------------------
     D = chk.rule("C12-D", "parse_file tests and records the resolved path before parse_text; parse_text is reachable only through parse_file", 4,
                  "a file parsed twice reports conflicts of a definition with itself")
-    pf = prog.func(PAR, "Parser.parse_file")
-    pg = C.build(pf.node)
-    pgs = flow.guard_states(pg)
-    ptn = [n for n in pg.nodes if any(is_method_call(c, "parse_text") and path_of(recv_of(c)) == "self" for c in node_calls(n))]
-    apn = [n for n in pg.nodes for c in node_calls(n) if is_method_call(c, "append") and path_of(recv_of(c)) == "self.included_files"]
-    if len(ptn) != 1:
-        raise AnalysisError("anchor vanished: parse_text call in parse_file")
-    if len(apn) != 1:
-        D.bad(fkey(pf, "records-file"), where(pf), f"parse_file records the parsed file in included_files {len(apn)} times (expected once): repeated imports are parsed again")
-        apn = []
-    if apn:
-        apc = [c for c in node_calls(apn[0]) if is_method_call(c, "append")][0]
-        pv = path_of(apc.args[0])
-        pdef = dataflow.definitions(pf.node, pv) if pv else []
-        D.decide(len(pdef) == 1 and norm(pdef[0][1]).endswith(".resolve()"), fkey(pf, "resolved-path"), where(pf), f"`{pv}` is a resolved path", f"recorded path `{pv}` is not the resolved path")
-        tests = [n for n in pg.nodes if n.kind == "test" and "self.included_files" in flow.access_paths(n.ast) and pv in flow.access_paths(n.ast)]
-        D.decide(len(tests) == 1, fkey(pf, "membership-test-same-variable"), where(pf), f"membership test compares `{pv}` with included_files", "no membership test of the recorded path variable against included_files")
-        if tests:
-            t = tests[0]
-            # (the fact is established at the recording point; the append itself invalidates it afterwards)
-            bad = guards.any_path_implies(pgs.at(apn[0]), guards.parse(f"not ({norm(t.ast)})"))
-            D.decide(not bad, fkey(pf, "parse-only-if-new"), where(pf), "the file is recorded (and then parsed) only when it was not seen", "a file can be recorded/parsed although already included")
-            # skip path registers nothing: from the true edge no handler / parse_text / append is reachable
-            skip = flow.reach(pg, [e.dst for e in pg.succ[t.id] if e.kind == "true"])
-            D.decide(ptn[0].id not in skip and apn[0].id not in skip, fkey(pf, "skip-path-registers-nothing"), where(pf), "the skip path neither parses nor records", "the skip path still parses or records the file")
-        D.decide(not flow.must_precede(pg, apn, ptn), fkey(pf, "record-before-parse"), where(pf), "path recorded before parsing (diamond/cyclic imports terminate)", "file is recorded only after parsing its imports")
-    for cf, cc in cg.call_sites_of(prog.func(PAR, "Parser.parse_text").key):
-        D.decide(cf.key == pf.key, fkey(cf, cc), where(cf, cc), "parse_text called from parse_file", f"parse_text called from {cf.qual} (bypasses the once-only test)")
-    hi = prog.func(PAR, "Parser.handle_import")
-    D.decide(any(is_method_call(c, "parse_file") for c in calls_in(hi.node)), fkey(hi, "imports-through-parse_file"), where(hi), "imports go through parse_file", "handle_import does not go through parse_file")
+    file_read_once(prog, cg, D)
 
     # the parser's notion of "current file" is restored on every normal exit (the module/host id range rules and all
     # error messages are keyed by it; a skipped repeat import must not leave the importer under another file's name)
